@@ -270,6 +270,13 @@ def run(ctx):
              ("clang-armv5te", ["clang", "--target=armv5te-none-eabi", "-isystem", clang_inc]),
              ("clang-rv32imc", ["clang", "--target=riscv32", "-march=rv32imc", "-isystem", clang_inc]),
              ("clang-mipsel", ["clang", "--target=mipsel-none-elf", "-isystem", clang_inc])]
+    # ... and hosted compiles for other operating systems: a compiler that knows the platform's C library may turn plain loops
+    # into calls to functions only that library has (clang on Apple targets: memset_pattern16; bcmp elsewhere)
+    hosted = [("clang-macos-x86_64-hosted", ["clang", "--target=x86_64-apple-macosx10.15", "-isystem", clang_inc]),
+              ("clang-macos-arm64-hosted", ["clang", "--target=arm64-apple-macos11", "-isystem", clang_inc]),
+              ("clang-freebsd-hosted", ["clang", "--target=x86_64-unknown-freebsd13", "-isystem", clang_inc]),
+              ("clang-android-hosted", ["clang", "--target=aarch64-linux-android29", "-isystem", clang_inc]),
+              ("clang-windows-hosted", ["clang", "--target=x86_64-pc-windows-msvc", "-isystem", clang_inc])]
     nm_tool = "llvm-nm-14" if sh(["which", "llvm-nm-14"]).returncode == 0 else "nm"
 
     def cross_cfg(item):
@@ -277,7 +284,7 @@ def run(ctx):
         objs = []
         for c in core:
             o = os.path.join(d, "x-%s%s-%s.o" % (tname, opt, os.path.basename(c)))
-            r = sh(cmd + [opt, "-ffreestanding", "-nostdinc", "-w", "-c", inc, "-o", o, c])
+            r = sh(cmd + [opt] + ([] if tname.endswith("-hosted") else ["-ffreestanding"]) + ["-nostdinc", "-w", "-c", inc, "-o", o, c])
             if r.returncode != 0:
                 return tname, opt, None, r.stdout[-400:]
             objs.append(o)
@@ -285,20 +292,26 @@ def run(ctx):
         for o in objs:
             und |= set(x.split()[-1] for x in sh([nm_tool, "-u", o]).stdout.split("\n") if x.strip())
             dfn |= set(x.split()[-1] for x in sh([nm_tool, "--defined-only", o]).stdout.split("\n") if x.strip())
+        if "macos" in tname:                        # Mach-O symbol names carry a leading underscore
+            und = set(x[1:] if x.startswith("_") else x for x in und)
+            dfn = set(x[1:] if x.startswith("_") else x for x in dfn)
         return tname, opt, und - dfn, None
 
     with ThreadPoolExecutor(max_workers=H.NCPU) as ex:
-        xres = list(ex.map(cross_cfg, [(c, o) for c in cross for o in ("-O0", "-O2", "-Os")]))
+        xres = list(ex.map(cross_cfg, [(c, o) for c in cross for o in ("-O0", "-O2", "-Os")] +
+                           [(c, o) for c in hosted for o in ("-O1", "-O2", "-Os", "-Oz")]))
     for tname, opt, und, err in xres:
         if und is None:
             rep.notes.append("cross target %s%s not available here: %s" % (tname, opt, (err or "").strip()[-160:]))
             continue
         rep.count("cross_target_objects_checked")
+        if tname.endswith("-hosted"):
+            rep.count("hosted_other_os_objects_checked")
         rep.nontrivial(("cross", tname, opt))
         for sym in sorted(und):
             if not (sym in allowed or sym in MEMFUNCS or COMPILER_RT.match(sym)):
                 rep.violation("C20:undefined-symbol-outside-port-api:%s" % sym,
-                              "core compiled freestanding for %s %s references `%s' - not a port function, a memory primitive or an "
+                              "core compiled for %s %s references `%s' - not a port function, a memory primitive or an "
                               "integer helper of the compiler runtime" % (tname, opt, sym))
     # the repository's own lint rule (lexical clause; not runtime monitoring)
     r = sh(["bash", "scripts/lint_core_no_os_conditionals.sh"], cwd=H.REPO)
@@ -308,6 +321,7 @@ def run(ctx):
     rep.need("corpus_runs", rep.counters.get("corpus_runs", 0), 16)
     rep.need("bracket_runs", rep.counters.get("bracket_runs", 0), 16)
     rep.need("cross_target_objects_checked", rep.counters.get("cross_target_objects_checked", 0), 6)
+    rep.need("hosted_other_os_objects_checked", rep.counters.get("hosted_other_os_objects_checked", 0), 8)
     if os.uname().machine == "x86_64":
         rep.need("bare_runs", rep.counters.get("bare_runs", 0), 12)
     rep.sample(dict(configurations=["%s%s-%s" % c for c in cfgs], scenarios=len(scns), bracket_output=sent_ref))
